@@ -97,15 +97,18 @@ impl Scenario for C03 {
         }
         // thorough tier, last two runs: an implicit assertion of 2^31 + 5 bytes (the length prefixes of the
         // pre-authentication encoding beyond 32 bits); one token per backend pair, checked by the reference
-        if tier == Tier::Thorough && run >= 119_998 {
-            let nodes = if run == 119_998 { vec![Bk::V4, Bk::V4Na] } else { vec![Bk::V3Lc, Bk::V3] };
+        // (wave 13) the run before them: 2^32 + 12 bytes, sealed by libsodium (streaming hash) and read by
+        // paseto-v4: a length word kept to 32 bits anywhere gives a token the reference does not reproduce
+        if tier == Tier::Thorough && run >= 119_997 {
+            let nodes = if run == 119_997 { vec![Bk::V4Na, Bk::V4] } else if run == 119_998 { vec![Bk::V4, Bk::V4Na] } else { vec![Bk::V3Lc, Bk::V3] };
+            let huge = if run == 119_997 { (1usize << 32) + 12 } else { (1usize << 31) + 5 };
             let f = nodes[0].family();
             let mut b = Builder::new("C03", seed, run, nodes.clone());
             let fk = b.family_keys(f, false).unwrap();
             let now = Ns(b.now_ns);
             let tok = b.tok_slot();
             let rng = b.healthy_rng();
-            b.push(Step::Seal { tok, node: 0, key: fk.local, purpose: Purp::Local, claims: ClaimsSpec::Raw { bytes: Bytes::hex(b"huge assertion") }, footer: FootSpec::Unit, aad: Bytes::Fill { len: (1usize << 31) + 5, byte: 0 }, nonce: None, alias: false, rng, now_ns: now });
+            b.push(Step::Seal { tok, node: 0, key: fk.local, purpose: Purp::Local, claims: ClaimsSpec::Raw { bytes: Bytes::hex(b"huge assertion") }, footer: FootSpec::Unit, aad: Bytes::Fill { len: huge, byte: 0 }, nonce: None, alias: false, rng, now_ns: now });
             b.push(Step::Deliver { tok, node: 1, key: fk.local, purpose: None, faults: vec![], pk: None, fk: None, validator: VSpec::None, alias: false, now_ns: now, pair_with: None });
             return b.finish();
         }
